@@ -193,6 +193,15 @@ def canon(A):
         return ('pause', (), False, None)
     return (m, tuple(ops), bool(A.get('lock')), A.get('rep'))
 
+def _segs(A):
+    """per memory operand: (override written?, segment the access goes through)"""
+    out = []
+    for o in A['ops']:
+        if o[0] == 'mem':
+            dflt = 2 if (o[1] in (4, 5)) else 3
+            out.append((o[5] is not None, dflt if o[5] is None else o[5]))
+    return out
+
 def same_instruction(A, B):
     """A (requested) vs B (decoded candidate): same mnemonic and operands; an immediate may be stored in a narrower sign-extended form"""
     a, b = canon(A), canon(B)
@@ -204,9 +213,13 @@ def same_instruction(A, B):
             def sx(v, n): return v - (1 << n) if v >> (n - 1) else v
             if x[1] != y[1] and (sx(x[1], x[2]) % (1 << w)) != (sx(y[1], y[2]) % (1 << w)) and x[1] != y[1] % (1 << x[2]): return False
         elif x[0] == 'mem':
-            if x[1:4] != y[1:4]: return False
+            if x[1:3] != y[1:3]: return False
             if x[4] is not None and y[4] is not None and x[4] != y[4]: return False
         elif x != y: return False
+    # segments: where an override is written on either side, both must go through the same segment (the same registers can have another
+    # default as base than as index); two forms without override are not compared on their defaults (flat model, see DESIGN)
+    for (ea, sa), (eb, sb) in zip(_segs(A), _segs(B)):
+        if (ea or eb) and sa != sb: return False
     return True
 
 # ------------------------------------------------------------------------------------------------ corpus
@@ -222,11 +235,23 @@ def corpus(tier, seed, want=None, shard=None):
     prefixes = [(), (0x66,), (0x64,), (0xF0,), (0xF3,)]
     if shard is not None:
         L = L[shard[0]::shard[1]]
-    for path, m in L:
-        if m.modifs.get('mmx') or '#' in m.name: continue
-        for bs in x86enum.candidates(path, full_sib=(tier == 'thorough'), pads=2, prefixes=prefixes, m=m, smart=True):
+    # every segment override (the bulk of the corpus only carries fs): on a handful of opcodes with a memory operand
+    SEG_PATHS = set([(0x8b,), (0x89,), (0xa1,), (0xa3,), (0x01,), (0x80, 0), (0xff, 6)])       # (not lea: a segment prefix means nothing there)
+    SEG_PREFIXES = [(0x36,), (0x26,), (0x2e,), (0x3e,), (0x65,)]
+    def stream():
+        for path, m in L:
+            if m.modifs.get('mmx') or '#' in m.name: continue
+            for bs in x86enum.candidates(path, full_sib=(tier == 'thorough'), pads=2, prefixes=prefixes, m=m, smart=True):
+                yield bs
+            if tuple(path) in SEG_PATHS or tuple(path[:1]) in SEG_PATHS:
+                for bs in x86enum.candidates(path, full_sib=False, pads=1, prefixes=SEG_PREFIXES, m=m, smart=True):
+                    yield bs
+    for bs in stream():
+        if True:
             A = x86dec.decode(bs)
             if A is None or not C01.meaningful_prefixes(A, bs): continue
+            # a ds override on an operand whose default segment is ds is superfluous (outside the domain, like every superfluous prefix)
+            if 0x3e in A['prefixes'] and not any(o[0] == 'mem' and o[1] in (4, 5) for o in A['ops']): continue
             b = bytes(bs[:A['length']])
             k = canon(A)
             # reduce: one representative per (mnemonic, operand kinds/sizes, register classes)
